@@ -15,8 +15,8 @@ MANIFEST = {
     "level_claimed": {
         "category": "model_checking",
         "text": "TLC enumerates, for 12 base statements (SELECT with =, AND, >, ORDER BY/LIMIT, LIKE, IN list, BETWEEN, JOIN; "
-                "INSERT..VALUES; UPDATE; DELETE; 10 of them blacklisted), every variant in 3 keyword casings x 5 gap styles "
-                "(one/two spaces, tab, newline, no space next to operators and punctuation) x 4 literal choices x (no comment or "
+                "INSERT..VALUES; UPDATE; DELETE; 10 of them blacklisted), every variant in 3 keyword casings x 7 gap styles "
+                "(one/two spaces, tab, LF, CR LF, CR, no space next to operators and punctuation) x 4 literal choices x (no comment or "
                 "one of 5 comment styles at every token gap, leading and trailing), and 5 structural mutants in 8 spellings "
                 "(quick: every variant with at most two non-default dimensions plus a seeded sample); on every text TLC checks "
                 "that variants keep and mutants change Skeleton and that the emitted decision is skeleton membership in the "
